@@ -34,6 +34,23 @@ def cut(data: bytes, rng, mode):
     return out
 
 
+def sequential_segments(reqs, rng, seg_mode):
+    """Client segments for a client that sends request k only after it holds the answer to request k-1 and the proxy is
+    quiescent (every byte the origins have written so far was delivered, no hook or connect pending)."""
+    segs = []
+    for k, q in enumerate(reqs):
+        parts = cut(q["raw"], rng, seg_mode)
+        if k > 0 and parts:
+            prev = reqs[k - 1]["tag"]
+
+            def gate(drv, prev=prev):
+                return prev in bytes(drv.out[drv.client]) and not drv.pending and not any(qq for c, qq in drv.inbox.items() if c is not drv.client)
+
+            parts[0] = (parts[0], gate)
+        segs += parts
+    return segs
+
+
 class H1ServerPeer(Peer):
     """Reactive HTTP/1 origin: parses what the proxy wrote with the reference parser and answers request k
     with responder(k, request_msg) -> (response_bytes, close_after: bool) once that request is complete
